@@ -224,7 +224,8 @@ theorem refPolicy_mask (X : ExpTab) (cfg : Cfg) : (refPolicy X cfg).mask = refMa
 
 theorem refPolicy_accept (X : ExpTab) (cfg : Cfg) (c s : Clu) :
     (refPolicy X cfg).accept c s =
-      accept cfg.merge X cfg.thr (c.mergedSummary s) c.summary s.summary := rfl
+      (decide (c.n + s.n < 2 ^ 64) &&
+        accept cfg.merge X cfg.thr (c.mergedSummary s) c.summary s.summary) := rfl
 
 theorem refRoute_lt (X : ExpTab) (cfg : Cfg) (cache : List Row) (c : Row) (hne : cache ≠ []) :
     (refPolicy X cfg).route cache c < cache.length := by
